@@ -348,11 +348,15 @@ def c13_async_jobs(tier, seed):
     rng0 = random.Random(seed)
     if quick:
         combos = [combos[0]] + rng0.sample(combos[1:], 5)
-    for i, cfg in enumerate(_graphs(seed + 1300, ng)):
+    from .. import families
+    # first graph: a producer much faster than its consumers (every recorded step consumes several messages: a truncated record must still
+    # hold all messages its recorded steps consumed - seeded change C13-a capped the message record by max_records)
+    fam = [families.fast_chain(random.Random(seed * 7 + 1))]
+    for i, cfg in enumerate(fam + _graphs(seed + 1300, ng)):
         hist = _hist_step(6) + _hist_run(5)
         # reference: everything recorded
         k = 0
-        for combo in combos:
+        for combo in (combos if i >= len(fam) else combos[:1]):
             for mr in ([None] if combo != combos[0] else [None, 1, 3]):
                 rec = dict(zip(flags, combo))
                 jobs.append(dict(kind="async", id=f"c13g{i}k{k}", cfg=cfg, seed=seed + i, gate=False, record=rec, max_records=mr,
